@@ -1339,60 +1339,138 @@ func (c *Ctx) cursorFooterProof(parse *ssa.Function) (how, bad string) {
 		return "", ""
 	}
 	h := rd.Parent()
-	if len(h.Params) < 2 || h.Signature.Recv() == nil {
-		return "", ""
-	}
-	// Read(pos, pos+width) with pos a field of the receiver
-	posLoad, ok := rd.Call.Args[1].(*ssa.UnOp)
-	if !ok || posLoad.Op != token.MUL {
-		return "", ""
-	}
-	posFA, ok := posLoad.X.(*ssa.FieldAddr)
-	if !ok || posFA.X != ssa.Value(h.Params[0]) {
-		return "", ""
-	}
-	owner, posField := fieldAddrInfo(posFA)
-	if owner == nil || posField == nil {
-		return "", ""
-	}
-	isPosLoad := func(v ssa.Value) bool {
-		ld, ok := v.(*ssa.UnOp)
-		if !ok || ld.Op != token.MUL {
-			return false
+	methodCursor := func() (*ssa.Parameter, string, bool) {
+		if len(h.Params) < 2 || h.Signature.Recv() == nil {
+			return nil, "", false
 		}
-		fa, ok := ld.X.(*ssa.FieldAddr)
+		// Read(pos, pos+width) with pos a field of the receiver
+		posLoad, ok := rd.Call.Args[1].(*ssa.UnOp)
+		if !ok || posLoad.Op != token.MUL {
+			return nil, "", false
+		}
+		posFA, ok := posLoad.X.(*ssa.FieldAddr)
+		if !ok || posFA.X != ssa.Value(h.Params[0]) {
+			return nil, "", false
+		}
+		owner, posField := fieldAddrInfo(posFA)
+		if owner == nil || posField == nil {
+			return nil, "", false
+		}
+		isPosLoad := func(v ssa.Value) bool {
+			ld, ok := v.(*ssa.UnOp)
+			if !ok || ld.Op != token.MUL {
+				return false
+			}
+			fa, ok := ld.X.(*ssa.FieldAddr)
+			if !ok {
+				return false
+			}
+			_, fv := fieldAddrInfo(fa)
+			return fv == posField
+		}
+		end, ok := rd.Call.Args[2].(*ssa.BinOp)
+		if !ok || end.Op != token.ADD || !isPosLoad(end.X) {
+			return nil, "the cursor's read does not end at its position plus a width", false
+		}
+		width, ok := end.Y.(*ssa.Parameter)
 		if !ok {
-			return false
+			return nil, "the cursor's read does not span a width it is given", false
 		}
-		_, fv := fieldAddrInfo(fa)
-		return fv == posField
-	}
-	end, ok := rd.Call.Args[2].(*ssa.BinOp)
-	if !ok || end.Op != token.ADD || !isPosLoad(end.X) {
-		return "", "the cursor's read does not end at its position plus a width"
-	}
-	width, ok := end.Y.(*ssa.Parameter)
-	if !ok {
-		return "", "the cursor's read does not span a width it is given"
-	}
-	// the only stores to the position: the step back by that width before the read, and data.Len() at creation
-	stepped := false
-	for _, st := range c.census().fieldStores[fieldKey{owner.Obj(), posField.Name()}] {
-		if st.fn == h {
-			sub, ok := st.val.(*ssa.BinOp)
-			if ok && sub.Op == token.SUB && isPosLoad(sub.X) && sub.Y == ssa.Value(width) && before(st.ins, rd) {
-				stepped = true
+		// the only stores to the position: the step back by that width before the read, and data.Len() at creation
+		stepped := false
+		for _, st := range c.census().fieldStores[fieldKey{owner.Obj(), posField.Name()}] {
+			if st.fn == h {
+				sub, ok := st.val.(*ssa.BinOp)
+				if ok && sub.Op == token.SUB && isPosLoad(sub.X) && sub.Y == ssa.Value(width) && before(st.ins, rd) {
+					stepped = true
+					continue
+				}
+				return nil, "the cursor's reading method moves its position other than back by the width it reads (" + c.pos(st.ins.Pos()) + ")", false
+			}
+			if ov := evalOff(st.val, map[*ssa.Parameter]offVal{}, 0); ov.ok && ov.rel && ov.v == 0 {
 				continue
 			}
-			return "", "the cursor's reading method moves its position other than back by the width it reads (" + c.pos(st.ins.Pos()) + ")"
+			return nil, "the footer cursor's position is set at " + c.pos(st.ins.Pos()) + " to something other than data.Len()", false
 		}
-		if ov := evalOff(st.val, map[*ssa.Parameter]offVal{}, 0); ov.ok && ov.rel && ov.v == 0 {
-			continue
+		if !stepped {
+			return nil, "the cursor's reading method does not step back by the width before it reads", false
 		}
-		return "", "the footer cursor's position is set at " + c.pos(st.ins.Pos()) + " to something other than data.Len()"
+		return width, "", true
 	}
-	if !stepped {
-		return "", "the cursor's reading method does not step back by the width before it reads"
+	// the cursor as a closure over a local position: end := data.Len(); read := func(w int) { start := end - w;
+	// Read(start, start+w); end = start }
+	closureCursor := func() (*ssa.Parameter, string, bool) {
+		if h.Parent() == nil || len(h.Params) == 0 {
+			return nil, "", false
+		}
+		start, ok := rd.Call.Args[1].(*ssa.BinOp)
+		if !ok || start.Op != token.SUB {
+			return nil, "", false
+		}
+		posLd, ok := start.X.(*ssa.UnOp)
+		if !ok || posLd.Op != token.MUL {
+			return nil, "", false
+		}
+		fv, ok := posLd.X.(*ssa.FreeVar)
+		if !ok {
+			return nil, "", false
+		}
+		width, ok := start.Y.(*ssa.Parameter)
+		if !ok {
+			return nil, "the closure's read does not start a width it is given before its position", false
+		}
+		end, ok := rd.Call.Args[2].(*ssa.BinOp)
+		if !ok || end.Op != token.ADD || end.X != ssa.Value(start) || end.Y != ssa.Value(width) {
+			return nil, "the closure's read does not span the width it steps back by", false
+		}
+		// the only store to the position inside the closure: position = start
+		n := 0
+		for _, b := range h.Blocks {
+			for _, ins := range b.Instrs {
+				if st, ok := ins.(*ssa.Store); ok && st.Addr == ssa.Value(fv) {
+					n++
+					if st.Val != ssa.Value(start) {
+						return nil, "the closure moves its position other than back by the width it reads (" + c.pos(st.Pos()) + ")", false
+					}
+				}
+			}
+		}
+		if n != 1 {
+			return nil, "the closure does not step its position back exactly once per read", false
+		}
+		// the cell in the enclosing function: set to data.Len() and nothing else
+		var cell ssa.Value
+		for _, b := range h.Parent().Blocks {
+			for _, ins := range b.Instrs {
+				if mc, ok := ins.(*ssa.MakeClosure); ok && mc.Fn == ssa.Value(h) {
+					for k, f2 := range h.FreeVars {
+						if f2 == fv && k < len(mc.Bindings) {
+							cell = mc.Bindings[k]
+						}
+					}
+				}
+			}
+		}
+		if cell == nil {
+			return nil, "", false
+		}
+		for _, b := range h.Parent().Blocks {
+			for _, ins := range b.Instrs {
+				if st, ok := ins.(*ssa.Store); ok && st.Addr == cell {
+					if ov := evalOff(st.Val, map[*ssa.Parameter]offVal{}, 0); !(ov.ok && ov.rel && ov.v == 0) {
+						return nil, "the footer cursor's position is set at " + c.pos(st.Pos()) + " to something other than data.Len()", false
+					}
+				}
+			}
+		}
+		return width, "", true
+	}
+	width, badWhy, okCursor := closureCursor()
+	if !okCursor && badWhy == "" {
+		width, badWhy, okCursor = methodCursor()
+	}
+	if !okCursor {
+		return "", badWhy
 	}
 	// widths handed in agree with the decodes applied to what comes back
 	var widthsOf func(p *ssa.Parameter, depth int) (map[int64]bool, bool)
